@@ -231,6 +231,8 @@ class Run(RunBase):
         a = self.m.a
         k = op["op"]
         part = {"lanelet": "L", "sign": "S", "light": "T", "intersection": "I"}
+        if k == "net_remove_absent":
+            return op["id"] not in a[part[op["kind"]]]
         if k in ("net_remove", "sc_remove"):
             ids = op["ids"]
             return len(ids) > 0 and len(set(ids)) == len(ids) and all(i in a[part[op["kind"]]] for i in ids)
@@ -321,11 +323,29 @@ class Run(RunBase):
         fn = {"lanelet": self.net.remove_lanelet, "sign": self.net.remove_traffic_sign,
               "light": self.net.remove_traffic_light, "intersection": self.net.remove_intersection}[kind]
         try:
-            fn(x)
+            if kind == "lanelet" and op.get("rtree") is False:
+                fn(x, rtree=False)  # the spatial index is not C10's business; references must be cleaned all the same
+            else:
+                fn(x)
         except Exception as e:  # noqa
             raise Violation(f"C10/removal-raised/{self.last}", f"{self.last}({x}) raised {type(e).__name__}: {e}")
         {"lanelet": self.m.remove_lanelet, "sign": self.m.remove_sign, "light": self.m.remove_light,
          "intersection": self.m.remove_intersection}[kind](x)
+        self._check(op)
+        return "ok"
+
+    def _op_net_remove_absent(self, op):
+        """Network-level removal of an id that is not (or no longer) in the network is a no-op by contract."""
+        kind, x = op["kind"], op["id"]
+        self.last = f"LaneletNetwork.remove_{kind}[absent id]"
+        self.faults["F-reject"] += 1
+        fn = {"lanelet": self.net.remove_lanelet, "sign": self.net.remove_traffic_sign,
+              "light": self.net.remove_traffic_light, "intersection": self.net.remove_intersection}[kind]
+        try:
+            fn(x)
+        except Exception as e:  # noqa
+            raise Violation(f"C10/removal-raised/{self.last}", f"{self.last}({x}) raised {type(e).__name__}: {e}")
+        self.probe("removal-of-absent-id")
         self._check(op)
         return "ok"
 
@@ -490,8 +510,11 @@ def _remover(rng, run, cfg):
             continue
         kind = rng.pick(kinds)
         ids = sorted(a[part[kind]])
-        if rng.chance(cfg["p_net_level"]):
-            yield {"op": "net_remove", "kind": kind, "ids": [rng.pick(ids)]}
+        if rng.chance(0.08):
+            gone = rng.choice([x for x in range(1, 130) if x not in a[part[kind]]])
+            yield {"op": "net_remove_absent", "kind": kind, "id": gone}
+        elif rng.chance(cfg["p_net_level"]):
+            yield {"op": "net_remove", "kind": kind, "ids": [rng.pick(ids)], "rtree": rng.chance(0.8)}
         else:
             form = rng.choice(["single", "list"])
             n = 1 if form == "single" else rng.randint(1, min(3, len(ids)))
@@ -542,7 +565,7 @@ class C10(Property):
                        "intersection-spans-removed-and-kept-lanelets", "stop-line-reference-cleaned",
                        "exclusive-sign-or-light-removed-with-lanelet", "shared-sign-or-light-kept",
                        "cut-out-by-shape-partial", "cut-out-by-type-partial", "restart-pickle", "restart-deepcopy",
-                       "cut-out-keeps-source-alive", "continued-on-the-other-network"]
+                       "cut-out-keeps-source-alive", "continued-on-the-other-network", "removal-of-absent-id"]
     assumptions = [
         "networks are well formed: every reference names an existing element and a stop line refers only to signs and "
         "lights its lanelet also references (checked on every generated universe)",
